@@ -30,6 +30,7 @@ UBASE = dict(
 USTRUCT = ["TypeOK"]
 MBASE = dict(MaxSize=1, NConns=3, Budget=5, AllowBreak=False, AllowInvalid=False)
 RBASE = dict(MaxSize=1, NConns=3, Budget=4, Modes=["right", "wrong"])
+PBASE = dict(MaxSize=1, NConns=3, Budget=4, Method="fast", Modes=["ok"], Keys=["a"], AllowDrop=False)
 SBASE = dict(K=1, NInteract=2, MaxPending=1, AllowPanic=True, AllowCancel=True)
 
 
@@ -343,6 +344,27 @@ PROPS["C17"] = {
         "thorough": [
             ("m1", C(MaxSize=1, NConns=5, Budget=6, Modes=["right", "stale", "wrong", "error", "disconnect"]), True),
             ("m2", C(MaxSize=2, NConns=5, Budget=5, Modes=["right", "stale", "wrong", "error", "disconnect"]), True),
+        ],
+    },
+}
+
+PROPS["C16"] = {
+    "kind": "pgmgr", "xh": True,
+    "invariants": ["Inv_C16_registry", "Inv_C16_cache", "Inv_DeadStayDead", "Inv_Capacity"], "actprops": ["Act_C16_closed"],
+    "preds": ["P16a", "P16b", "P16c", "P16d", "P16e"],
+    "obs_sample": {"quick": 1, "thorough": 1},
+    "configs": {
+        "quick": [
+            ("fast", C(MaxSize=2, NConns=3, Budget=4, Method="fast", Keys=["a", "p:int4", "p:text"], AllowDrop=True), True),
+            ("verified", C(MaxSize=1, NConns=3, Budget=4, Method="verified", Modes=["ok", "error", "disconnect"], Keys=["a"], AllowDrop=True), True),
+            ("clean", C(MaxSize=1, NConns=3, Budget=3, Method="clean", Modes=["ok", "error"], Keys=["p:int4"]), True),
+            ("custom", C(MaxSize=2, NConns=3, Budget=4, Method="custom", Modes=["ok", "disconnect"], Keys=["p:int4", "p:text"]), True),
+        ],
+        "thorough": [
+            ("fast", C(MaxSize=2, NConns=4, Budget=5, Method="fast", Keys=["a", "p:int4", "p:text"], AllowDrop=True), True),
+            ("verified", C(MaxSize=2, NConns=4, Budget=5, Method="verified", Modes=["ok", "error", "disconnect"], Keys=["a", "p:text"], AllowDrop=True), True),
+            ("clean", C(MaxSize=2, NConns=4, Budget=4, Method="clean", Modes=["ok", "error", "disconnect"], Keys=["p:int4"], AllowDrop=True), True),
+            ("custom", C(MaxSize=2, NConns=4, Budget=5, Method="custom", Modes=["ok", "error", "disconnect"], Keys=["p:int4", "p:text"]), True),
         ],
     },
 }
